@@ -16,6 +16,7 @@ import PdbVerif.Model.Effects
 import PdbVerif.Proofs.Effects
 import PdbVerif.Proofs.EffectsRoutines
 import PdbVerif.Proofs.EffectsMix
+import PdbVerif.Proofs.EffectsZoneFiles
 
 set_option linter.unusedVariables false
 
@@ -114,6 +115,22 @@ theorem noninterference_every_schedule (W : Work L Z R) (fs₀ : FS P L) (isInpu
   simp only [List.getElem?_map, hc, Option.map_some, Option.some.injEq] at ht
   rw [hot, ← ht]
 
+/-- **noninterference_zone_files** — the same with nothing abstract about zone files: a zone is a list of
+    (chain character, residue number), the zone file holds the lines the translated writer `Gen.zone_line`
+    (`_write_zone`) produces and is parsed by the translated reader `Gen.read_zone_line` (`read_zone`).  The round
+    trip is no longer a hypothesis: it is C09's `read_write_zone`, which needs only that no chain identifier of the
+    computed zone is `-` or blank (the recorded finding C09-F4 is exactly that exception). -/
+theorem noninterference_zone_files {R : Type} (computeZ : Routine → List Py.Str → List (Char × Int))
+    (check : Routine → Nat → List (List Py.Str) → Except Err Unit)
+    (score : Routine → Option ZoneZ → List (List Py.Str) → Except Err R)
+    (exportLines : Routine → Nat → List (List Py.Str) → List Py.Str) (sameAtoms : List (List Py.Str) → Bool)
+    (fs₀ : FS P Py.Str) (isInput : P → Prop) (ref cache : P) (zr : Routine) (calls : List (Routine × Args P))
+    (hdir : SharedZoneDir fs₀ isInput ref cache zr calls)
+    (hchains : ∀ rc, ∀ z ∈ computeZ zr rc, z.1 ≠ '-' ∧ Py.isSpace z.1 = false) :
+    Noninterfering fs₀ (calls.map (fun c => (prog (zoneFileWork computeZ check score exportLines sameAtoms) c.1 c.2 : Prog P Py.Str R))) :=
+  mix_noninterfering _ fs₀ isInput ref cache zr calls
+    { toSharedZoneDir := hdir, roundtrip := fun rc => zone_roundtrip (computeZ zr rc) (hchains rc) }
+
 end
 
 /-! ### a concrete instance (non-vacuity; also used by the counterexamples)
@@ -129,6 +146,7 @@ def exW : Work Nat (List Nat) (List Nat) where
   check := fun _ _ _ => .ok ()
   score := fun _ z obs => .ok (z.getD [] ++ obs.flatten)
   exportLines := fun _ n obs => n :: obs.flatten
+  sameAtoms := fun obs => obs.length % 2 == 0
 
 def exFS : FS Nat Nat := fun p =>
   if p = 0 then some [7, 8, 9] else if p = 1 then some [1] else if p = 2 then some [2]
@@ -197,6 +215,14 @@ example :
     s.outcome 0 = some (((prog exW (.irmsdFast true) (exA 1 10) : Prog Nat Nat (List Nat)).exec exFS).2) ∧
     (s.outcome 2).isSome ∧ (s.outcome 3).isSome ∧ s.fs 3 = some [7, 8] ∧ s.fs 10 = none ∧ s.fs 11 = none := by
   decide
+
+/-- non-vacuity of `noninterference_zone_files`: the file written for the zone A5, B-3 is read back; a line is
+    `zone <chain><num>-<chain><num>` + newline (C09 `zone_line_format`) -/
+example : parseZone (renderZone ([('A', 5), ('B', -3)].map fun z => ([z.1], z.2))) = .ok [(['A'], 5), (['B'], -3)] :=
+  zone_roundtrip [('A', 5), ('B', -3)] (by decide)
+
+example : renderZone [(['A'], 5)] = [['z', 'o', 'n', 'e', ' '] ++ ['A'] ++ Py.intStr 5 ++ ['-'] ++ ['A'] ++ Py.intStr 5 ++ ['\n']] := by
+  simp [renderZone, Gen.zone_line, pure, Except.pure]
 
 /-! ### kept regressions: the pinned tree's writers violate the property -/
 
